@@ -7,6 +7,9 @@ import (
 	"encoding/hex"
 	"errors"
 	"fmt"
+	"strings"
+	"sync"
+	"sync/atomic"
 
 	"github.com/miekg/dns"
 
@@ -455,16 +458,77 @@ func c11Chain(w *core.W, j int) {
 	}
 }
 
+// c11Concurrent: several goroutines sign and verify messages of their own with one shared secret
+// and algorithm at the same time; every MAC must be the RFC 8945 HMAC and every message verify.
+func c11Concurrent(w *core.W, j int) {
+	g := model.NewGen(w.Rng(j))
+	alg := tsigAlgs[j%len(tsigAlgs)]
+	secret := g.Bytes(16 + g.R.IntN(32))
+	secretB64 := base64.StdEncoding.EncodeToString(secret)
+	keyName := model.Name{[]byte("shared"), []byte("example")}
+	provider := dns.VerifTsigSecretProvider(map[string]string{keyName.Pres(): secretB64})
+	signedAt := uint64(1_700_000_000 + g.R.IntN(1_000_000))
+	var bad, panics atomic.Int32
+	var first atomic.Value
+	var wg sync.WaitGroup
+	w.Eval(1)
+	for t := 0; t < 8; t++ {
+		wg.Add(1)
+		go func(t int) {
+			defer wg.Done()
+			defer func() {
+				if r := recover(); r != nil {
+					panics.Add(1)
+					first.CompareAndSwap(nil, fmt.Sprintf("panic: %v", r))
+				}
+			}()
+			for it := 0; it < 25; it++ {
+				m := new(dns.Msg)
+				m.SetQuestion(fmt.Sprintf("q%d-%d.example.", t, it), dns.TypeTXT)
+				m.Id = uint16(t*1000 + it)
+				m.Answer = append(m.Answer, &dns.TXT{Hdr: dns.RR_Header{Name: m.Question[0].Name, Rrtype: dns.TypeTXT, Class: 1, Ttl: 5}, Txt: []string{strings.Repeat("x", 20*t+it)}})
+				m.SetTsig(keyName.Pres(), alg, 300, int64(signedAt))
+				out, mac, err := dns.TsigGenerate(m, secretB64, "", false)
+				if err != nil {
+					bad.Add(1)
+					first.CompareAndSwap(nil, "TsigGenerate: "+err.Error())
+					continue
+				}
+				no, ts, _, ok := model.SplitTSIG(out)
+				if !ok {
+					bad.Add(1)
+					continue
+				}
+				want, derr := ts.Digest(no, secret, nil, false)
+				if derr != nil || !bytes.Equal(want, ts.MAC) || hex.EncodeToString(want) != mac {
+					bad.Add(1)
+					first.CompareAndSwap(nil, fmt.Sprintf("MAC %x is not the RFC 8945 HMAC %x", ts.MAC, want))
+				}
+				if verr := dns.VerifTsigVerify(append([]byte(nil), out...), provider, "", false, signedAt); verr != nil {
+					bad.Add(1)
+					first.CompareAndSwap(nil, "TsigVerify of a correctly signed message: "+verr.Error())
+				}
+			}
+		}(t)
+	}
+	wg.Wait()
+	w.Count("concurrent_rounds", 1)
+	if bad.Load() > 0 || panics.Load() > 0 {
+		w.Violation("C11/concurrent-use/"+alg, fmt.Sprintf("8 goroutines x 25 sign+verify with one shared secret: %d wrong results, %d panics (first: %v)", bad.Load(), panics.Load(), first.Load()), map[string]any{"alg": alg, "secret": hx(secret)})
+	}
+}
+
 func init() {
 	plan, run := sections(
 		section{"messages", tiered(300, 12000), c11Case},
 		section{"chains", tiered(400, 12000), c11Chain},
+		section{"concurrent", tiered(20, 400), c11Concurrent},
 	)
 	core.Register(&core.Monitor{
 		ID: "C11", Level: "exploration", Plan: plan, Run: run,
 		Rule: "5 HMAC algorithms x messages (query-only and 1..5-record messages of all types) x secrets of 1..64 octets x {no request MAC, request MAC, request MAC + timers-only} x fudge {1,60,256,300,65535}; " +
 			"oracle = independent RFC 8945 digest (model encoder + crypto/hmac): output shape and MAC, window at t, t+-fudge, t+-(fudge+1), +-65536 multiples via the explicit-now hook; soundness under every single-bit flip (messages <= 160 octets, 200 sampled above), " +
-			"~25 field/context/structure alterations; envelope chains of 1..6 made by the library and by the harness, with removal, reordering, alteration and wrong previous MACs; non-trivial = distinct signed message / chain",
+			"~25 field/context/structure alterations; envelope chains of 1..6 made by the library and by the harness, with removal, reordering, alteration and wrong previous MACs; 8 goroutines signing and verifying their own messages with one shared secret at the same time; non-trivial = distinct signed message / chain",
 		Assumptions: []string{"the CLASS of the TSIG RR on the wire is not part of the statement's acceptance condition (the digest always uses ANY)", "now is passed explicitly through the verif hook VerifTsigVerify"},
 		MinObserved: []string{"generated", "window_checks", "alterations_rejected", "exhaustive_bitflip_messages", "chains"},
 	})
